@@ -194,14 +194,24 @@ def gen_l1_contract(rng, idx):
         methods.append(gen.simple_method("migrate_it", "migrate", gen_l1_args(rng, gens)))
     rng.shuffle(methods)
     msg_attrs = []
-    for _ in range(rng.choice([0, 0, 1, 2, 3])):
+    for _ in range(rng.choice([0, 0, 1, 2, 3, 5])):
         msg_attrs.append([rng.choice(["exec", "query", "sudo", "instantiate", "migrate"]), rng.choice(ATTR_POOL_TYPE)])
+    msg_attrs += interleaved_msg_attrs(rng, ["exec", "query", "sudo", "instantiate", "migrate"])
     ct = {"name": "Ct%d" % idx, "generics": generics, "wheres": wheres, "methods": methods, "msg_attrs": msg_attrs}
     if rng.random() < 0.5:
         ct["error"] = "ContractError"
     if rng.random() < 0.3:
         ct["ifaces"] = [{"module": "crate::ifc%d" % j, "alias": None} for j in range(rng.choice([1, 2]))]
     return ct
+
+
+def interleaved_msg_attrs(rng, kinds):
+    """now and then: attributes for one kind separated by an attribute for another kind (A, B, A) - nothing says they must be adjacent"""
+    if rng.random() >= 0.25:
+        return []
+    a, b = rng.sample(kinds, 2)
+    xs = rng.sample(ATTR_POOL_TYPE, min(3, len(ATTR_POOL_TYPE)))
+    return [[a, xs[0]], [b, xs[1 % len(xs)]], [a, xs[2 % len(xs)]]]
 
 
 def gen_l1_interface(rng, idx):
@@ -228,7 +238,8 @@ def gen_l1_interface(rng, idx):
             m["fwd"] = rng.sample(ATTR_POOL_VARIANT, 1)
             m["fwd_before_msg"] = rng.choice([False, True])
         methods.append(m)
-    msg_attrs = [[rng.choice(["exec", "query", "sudo"]), rng.choice(ATTR_POOL_TYPE)] for _ in range(rng.choice([0, 0, 1, 2]))]
+    msg_attrs = [[rng.choice(["exec", "query", "sudo"]), rng.choice(ATTR_POOL_TYPE)] for _ in range(rng.choice([0, 0, 1, 2, 4]))]
+    msg_attrs += interleaved_msg_attrs(rng, ["exec", "query", "sudo"])
     it = {"name": "Ifc%d" % idx, "module": "ifc%d" % idx, "assoc": assoc, "methods": methods, "msg_attrs": msg_attrs}
     if "ExecC" not in assoc_names:
         it["custom_msg"] = "Empty"
